@@ -78,11 +78,11 @@ def append_step(prog: Program, rep: Report) -> None:
     it.objenv["state.npid"] = NF.atom("npid")
     it.objenv["state.pid"] = NF.atom("pid")
     res, fr = it.run(fi, dict(args=MapV(Ref("arg"), "**args")), "state")
-    n_new = fr.env.get("num_new_particles")
-    n_txt = vtext(n_new) if n_new is not None else None
     pid = it.objenv.get("state.pid")
     npid = it.objenv.get("state.npid")
-    n_nf = it.num(n_new) if n_new is not None else None
+    # n = what the release counter is advanced by (whatever the local is called)
+    n_nf = (it.num(npid) - NF.atom("npid")) if isinstance(it.num(npid), NF) else None
+    n_txt = n_nf.canon() if isinstance(n_nf, NF) else None
     rep.check(rule, fi.qual, "number of new particles = broadcast size of all values", n_txt == "bcast.size", what_bad=f"n is {n_txt}; it must be the common broadcast size of every supplied and default value", what_ok="b.size", loc=fi.loc())
     want_pid = NF.atom(f"cat(pid;arange(npid;{(NF.atom('npid') + n_nf).canon() if isinstance(n_nf, NF) else '?'};dtype))") if False else None
     ptxt = vtext(pid)
@@ -343,13 +343,10 @@ def provenance(prog: Program, rep: Report) -> None:
             bad = [leaf for conds, leaf in leaves if not (isinstance(leaf, NF) and k in leaf.atoms())]
             rep.check(rule, fi.qual, f"state[{k!r}] (flags {''.join('1' if x else '0' for x in flags.values())})", not bad, what_bad=f"some arm of the stored value does not derive from the current {k} array: {[vtext(b)[:60] for b in bad]} - the array may change length or order", what_ok=f"element-wise function of {k}", loc=fi.loc())
     ff = prog.role_func("forcing", "force_particles")
-    for w in statefx.state_writes(prog):
-        if w.fi.qual != ff.qual:
-            continue
-        src = unparse(w.value) if w.value is not None else ""
-        key = unparse(w.target.slice) if isinstance(w.target, ast.Subscript) else "?"
-        ok = src == f"self.variables[{key}]"
-        rep.check(rule, ff.qual, short(w.node), ok, what_bad="a forcing value stored in the state must be the sample just taken at the current particle positions", what_ok="fresh sample of the same name", loc=ff.loc(w.node))
+    from . import c02
+
+    for node, key, fields in c02.forcing_state_stores(prog):
+        rep.check(rule, ff.qual, f"state[{key}] = sample taken in this call", fields == {key}, what_bad=f"a forcing value stored in the state must be the sample just taken at the current particle positions (field {key}); it derives from {sorted(fields) or 'no field sample'}", what_ok="fresh sample of the same name", loc=ff.loc(node))
     st = prog.role_func("state", "__setitem__")
     from ..program import xunparse
 
